@@ -739,12 +739,15 @@ func (ar *asyncRunner) start(nArgs int) {
 	ar.gen.enter()
 	ar.vmCall(r.vm, nArgs)
 	res, resType, ex := ar.gen.step()
-	ar.step(res, resType == resultNormal, ex)
 	if ex != nil {
 		r.vm.sp = sp - nArgs - 2
 	}
+	// Remove the frames set up by enter() before running step(): it may call back into user code
+	// (a 'then' or 'constructor' getter of the awaited value) and an uncatchable exception (interrupt)
+	// raised there must not leave these frames behind.
 	r.vm.popTryFrame()
 	r.vm.popCtx()
+	ar.step(res, resType == resultNormal, ex)
 }
 
 type generator struct {
